@@ -379,8 +379,29 @@ def run_property(pid, tier, seed, replay=None):
     ctx = {"kimpl": KIMPL, "kmodel": KMODEL, "root": ROOT, "have_impl": okc, "have_model": os.path.exists(KMODEL)}
     if replay:
         payload = json.load(open(replay))
+        if payload.get("kind") == "broken-obligation":
+            print("replay: this file names broken obligations, not a failing input:")
+            for b in payload.get("broken", []):
+                print("  -", b)
+            fd = payload.get("first_disagreement") or {}
+            payload = {"case": fd.get("case"), "impl": fd.get("impl")} if fd.get("case") else {}
         try:
-            runner(o, ctx, tier, seed, replay=payload)
+            if spec.get("replay_with_oracle"):
+                runner(o, ctx, tier, seed, replay=payload)
+            elif payload.get("case") and okc:
+                # generic replay: run the recorded case(s) again through the real code and the model and report whether the
+                # recorded failing answer is reproduced
+                cases = payload.get("cases") or [payload["case"]]
+                impl = run_sharded(KIMPL, cases)
+                model = run_sharded(KMODEL, cases) if os.path.exists(KMODEL) else ["-"] * len(cases)
+                for c_, a_, m_ in zip(cases, impl, model):
+                    print("case :", c_[:400]); print("impl :", a_[:400]); print("model:", m_[:400])
+                o.evaluations += len(cases)
+                rec = (payload.get("impl") or "")[:150]
+                if rec and impl[-1][:150] == rec:
+                    o.violations.append({"case": payload["case"], "impl": impl[-1][:400], "why": "replay reproduces the recorded failing answer: " + str(payload.get("why", ""))[:200]})
+                else:
+                    o.notes.append("replay: the recorded failing answer is NOT reproduced on the current tree")
         except Exception:
             traceback.print_exc()
             o.broken.append("replay crashed")
@@ -414,7 +435,8 @@ def run_property(pid, tier, seed, replay=None):
             else:
                 o.notes.append(f"known finding {k.get('id')} no longer reproduces (remove it from known_findings.txt)")
 
-    write_evidence(o, spec)
+    if not replay:
+        write_evidence(o, spec)
 
     for n in o.notes:
         print("note:", n)
